@@ -300,40 +300,66 @@ def run(ctx):
             k4.fail('%s:%s:no-keyword-test' % (g.crate, lex.name), where_lex,
                     '%s (used by %s to build %s) never asks is_keyword: reserved words are accepted as identifiers' % (lex.name, f.name, node['p']))
             continue
-        if len(kw_calls) != 1 or len(locs) != 1:
-            k4.undecided('%s:%s:keyword-test-shape' % (g.crate, lex.name), where_lex, '%s: %d is_keyword calls / %d into_locate calls' % (lex.name, len(kw_calls), len(locs)))
+        # must-pass-through: every successful exit (an `Ok(..)` carrying the token) lies on the NOT-keyword side of an
+        # is_keyword test of the value that becomes the token
+        from vlib import paths as _paths
+        try:
+            allp = _paths.enumerate_paths(body)
+        except _paths.Unmodelled as u:
+            k4.undecided('%s:%s:keyword-test-shape' % (g.crate, lex.name), where_lex, '%s: control flow not modelled (%s)' % (lex.name, u))
             continue
-        x = sx.render(sx.strip_ref(kw_calls[0]['args'][0])).replace(' ', '')
-        y = sx.render(sx.strip_ref(locs[0]['args'][0])).replace(' ', '')
-        if x != y:
-            k4.fail('%s:%s:keyword-test-other-value' % (g.crate, lex.name), where_lex,
-                    '%s tests is_keyword(%s) but converts `%s` to the token: the reserved-word test is not on the whole lexeme' % (lex.name, x, y))
+        succ = [p_ for p_ in allp if sx.is_call(p_.exit, 'Ok') and any(sx.is_call(z, 'into_locate') for z in sx.walk(p_.exit))]
+        if not succ:
+            k4.undecided('%s:%s:keyword-test-shape' % (g.crate, lex.name), where_lex, '%s: no `Ok(.. into_locate(..) ..)` exit found' % lex.name)
             continue
-        # the successful exit (the Ok containing into_locate) must be on the NOT-keyword side of a test of that call
-        verdict = None
-        for n in sx.walk(body):
-            if n.get('k') != 'if' or n['c'].get('k') == 'let':
-                continue
-            c = n['c']
-            neg = c.get('k') == 'unary' and c['op'] == '!'
-            core = c['e'] if neg else c
-            if core is not kw_calls[0]:
-                continue
-            in_then = any(z is locs[0] for z in sx.walk(n['t']))
-            in_else = 'e' in n and any(z is locs[0] for z in sx.walk(n['e']))
-            after = not in_then and not in_else
-            then_exits = any(z.get('k') == 'return' for z in sx.walk(n['t'])) or \
-                (n['t']['stmts'] and n['t']['stmts'][-1]['k'] == 'expr' and not n['t']['stmts'][-1].get('semi') and 'e' in n)
-            if neg:
-                verdict = 'ok' if in_then else ('wrong' if in_else else ('wrong' if after and then_exits else None))
+        bad = False
+        for p_ in succ:
+            k4.inst()
+            side = None
+            tested = None
+            for c, pol in p_.conds:
+                if c.get('k') in ('let', 'arm'):
+                    continue
+                neg = c.get('k') == 'unary' and c['op'] == '!'
+                core = c['e'] if neg else c
+                if sx.is_call(core, 'is_keyword') and len(core['args']) == 1:
+                    side = 'keyword' if (pol != neg) else 'not-keyword'
+                    tested = core
+                elif any(sx.is_call(z, 'is_keyword') for z in sx.walk(c)):
+                    side = 'unknown'
+            line_ = p_.exit.get('l') or lex.line
+            where_exit = '%s/%s:%s' % (g.crate, lex.file, line_)
+            if side is None:
+                k4.fail('%s:%s:success-path-without-keyword-test' % (g.crate, lex.name), where_exit,
+                        '%s (used by %s to build %s) has a successful exit that is not guarded by is_keyword: on that path a reserved word is '
+                        'returned as an identifier' % (lex.name, f.name, node['p']))
+                bad = True
+            elif side == 'keyword':
+                k4.fail('%s:%s:keyword-test-inverted' % (g.crate, lex.name), where_exit, '%s returns the identifier on the is_keyword side of the test' % lex.name)
+                bad = True
+            elif side == 'unknown':
+                k4.undecided('%s:%s:keyword-test-shape' % (g.crate, lex.name), where_exit, '%s: is_keyword occurs inside a compound condition' % lex.name)
             else:
-                verdict = 'ok' if in_else or (after and then_exits) else ('wrong' if in_then else None)
-        if verdict == 'ok':
+                # whole lexeme: the tested value and the converted value are the same variable under the same binding
+                loc = [z for z in sx.walk(p_.exit) if sx.is_call(z, 'into_locate') and len(z['args']) == 1]
+                x = sx.strip_ref(tested['args'][0])
+                y = sx.strip_ref(loc[0]['args'][0]) if len(loc) == 1 else None
+                if y is not None and sx.is_path(x) and sx.is_path(y):
+                    if x['p'] != y['p']:
+                        k4.fail('%s:%s:keyword-test-other-value' % (g.crate, lex.name), where_exit,
+                                '%s tests is_keyword(%s) but converts `%s` to the token: the reserved-word test is not on the whole lexeme' % (lex.name, x['p'], y['p']))
+                        bad = True
+                    else:
+                        # rebinding between the test and the exit
+                        tl = tested.get('l') or 0
+                        bnd = p_.binds.get(x['p'])
+                        if bnd is not None and (bnd.get('l') or 0) > tl:
+                            k4.fail('%s:%s:keyword-test-other-value' % (g.crate, lex.name), where_exit,
+                                    '%s re-binds `%s` after the is_keyword test: the token is not the value that was tested' % (lex.name, x['p']))
+                            bad = True
+                else:
+                    k4.undecided('%s:%s:keyword-test-value' % (g.crate, lex.name), where_exit, '%s: tested / converted value is not a plain variable' % lex.name)
+        if bad:
             continue
-        if verdict == 'wrong':
-            k4.fail('%s:%s:keyword-test-inverted' % (g.crate, lex.name), where_lex,
-                    '%s returns the identifier on the is_keyword side of the test' % lex.name)
-        else:
-            k4.undecided('%s:%s:keyword-test-shape' % (g.crate, lex.name), where_lex, '%s: how the is_keyword test guards the successful exit is not recognised' % lex.name)
     k4.floor('identifier_constructors', k4.instances, 3)
     return [k1, k2, k3, k4]
